@@ -7,6 +7,11 @@ import (
 	vp "github.com/google/go-tdx-guest/zzvp"
 )
 
+// crlHonest: a CRL genuinely issued by the CA (name, signature, and the CA may sign CRLs).
+func crlHonest(crl *x509.RevocationList, issuer *x509.Certificate) bool {
+	return vp.And(crlAuthentic(crl, issuer), vp.UFBool("CrlIssuerOK", vp.GhostGet(crl, "id").(uint64), certID(issuer)))
+}
+
 func linkOK(c, parent *x509.Certificate) bool {
 	return vp.And(c.Issuer.SerialNumber == parent.Subject.SerialNumber,
 		vp.UFBool("SigBy", certID(c), keyID(parent)), vp.UFBool("IssuerOK", certID(c), certID(parent)))
@@ -45,7 +50,9 @@ func h11(level int, authLen int, trailingNul, extra bool) {
 		// the chain's root is the trusted root
 		keyID(conf) == keyID(w.root), conf.Subject.SerialNumber == w.root.Subject.SerialNumber,
 		inWindow(w.leaf, t), inWindow(w.inter, t), inWindow(w.root, t), inWindow(conf, t),
-		vp.UFBool("PathOther", certID(w.leaf), certID(w.inter), certID(conf)))
+		vp.UFBool("PathOther", certID(w.leaf), certID(w.inter), certID(conf)),
+		// Intel marks the SGX extension non-critical
+		len(w.leaf.UnhandledCriticalExtensions) == 0)
 	if level >= 1 {
 		tt, tq := now.TcbInfo, now.QeIdentity
 		w4 := world04{body: quote.TdQuoteBody, ext: w.exts, info: *w.signedTcb, k: 2, m: 1, l: 1}
@@ -66,7 +73,7 @@ func h11(level int, authLen int, trailingNul, extra bool) {
 		tp, tr := now.PckCrl, now.RootCaCrl
 		pc := w.pckCrl
 		honest = vp.And(honest, !pc.resp.fail, !vp.GhostGet(pc.resp.body, "crl").(*crlGhost).fail,
-			crlAuthentic(pc.crl, w.inter), notListed(pc.crl, w.leaf.SerialNumber), !tp.After(pc.crl.NextUpdate),
+			crlHonest(pc.crl, w.inter), notListed(pc.crl, w.leaf.SerialNumber), !tp.After(pc.crl.NextUpdate),
 			!tp.After(w.pckCrlHdr.signer.NotAfter), !tp.After(w.pckCrlHdr.root.NotAfter))
 		// some distribution point answers; the first one that does serves the genuine Root CA CRL
 		earlier := false
@@ -76,7 +83,7 @@ func h11(level int, authLen int, trailingNul, extra bool) {
 			thisOK := vp.And(!d.resp.fail, !vp.GhostGet(d.resp.body, "crl").(*crlGhost).fail)
 			used := vp.And(thisOK, !earlier)
 			honest = vp.And(honest, vp.Implies(used, vp.And(
-				crlAuthentic(d.crl, w.root), crlAuthentic(d.crl, w.tcbDoc.chain.root), crlAuthentic(d.crl, w.qeDoc.chain.root),
+				crlHonest(d.crl, w.root), crlHonest(d.crl, w.tcbDoc.chain.root), crlHonest(d.crl, w.qeDoc.chain.root),
 				notListed(d.crl, w.inter.SerialNumber), notListed(d.crl, w.tcbDoc.chain.signer.SerialNumber), notListed(d.crl, w.qeDoc.chain.signer.SerialNumber),
 				!tr.After(d.crl.NextUpdate))))
 			earlier = vp.Or(earlier, thisOK)
